@@ -521,6 +521,9 @@ def imm_num(sk, style, neg):
     """bind a literal; returns (k, C expr of the written 64-bit pattern)"""
     k = sk.num()
     w = "(0ul - N%d)" % k if neg else "N%d" % k
+    if neg:
+        # -N is the written value: keep it representable in 64 bits
+        sk.decl.append("ASSUME(N%d <= (1ul << 63));" % k)
     return k, w
 
 
@@ -772,4 +775,231 @@ def c05_families(quick):
                 sk = mem_form("c05.%s.mfar" % mn, "branch.far", mn, xop, 0, [("mem", ms)], sh, kw)
                 sk.post.append('CHECK(D.far, "far indirect branch");')
                 out.append(sk)
+    return out
+
+
+# ---------------------------------------------------------------------------
+# C11: modes change only the documented forms
+
+def c11_mov64(style, neg):
+    sk = c03_mov_r64(style, neg)
+    sk.name = "c11.mov64.%s%s" % ("neg" if neg else "", style)
+    sk.family = "mode.mov64"
+    narrowable = "(WV <= 0xfffffffful)"
+    hex16 = "1" if style == "hex16" else "0"
+    # which mode is in effect for this spelling
+    sk.post.append("int narrowed = D.opd[0].rc == RC_GPR32;")
+    sk.post.append('if (vf_opt_mv == 1) CHECK(narrowed == %s, "NASM: narrowed to the 32-bit destination exactly when 0 <= imm <= 0xffffffff");' % narrowable)
+    sk.post.append('if (vf_opt_mv == 0) CHECK(!narrowed, "STRICT: the 64-bit destination is always kept");')
+    sk.post.append('if (vf_opt_mv == 2) CHECK(narrowed == (%s && !%s), "SMART: narrowing is suppressed exactly for hexadecimal literals written with all 16 digits");' % (narrowable, hex16))
+    return sk
+
+
+def c11_sib(quick):
+    out = []
+    # [base+rsp] / [base+esp] under the swap option; no-base shapes under the no-base option
+    classes = [("lea", "XOP_LEA", [("reg", GV), ("mem", "0")], None),
+               ("mov", "XOP_MOV", [("mem", "vf_regsize(R%d)"), ("reg", GALL)], None),
+               ("paddd", "XOP_PADDD", [("reg", XMM, "x"), ("mem", "128")], None),
+               ("vpaddd", "XOP_PADDD", [("reg", YMM, "y"), ("reg", YMM, "y"), ("mem", "256")], 1)]
+    for mn, xop, opds, vex in classes:
+        for sh in [MemShape("b+i"), MemShape("b+i*s+d", 1) if False else MemShape("b+d")][:1]:
+            o2 = [tuple(x) for x in opds]
+            if mn == "mov":
+                o2 = [("mem", "vf_regsize(R2)"), ("reg", GALL)]
+            sk = mem_form("c11.swap.%s" % mn, "mode.sib", mn, xop, vex or 0, o2, sh, None)
+            sk.decl.append("ASSUME(M.index.num == 4);")    # the stack pointer written as index
+            sk.post.append('if (vf_opt_sw == 1) CHECK(D.opd[%d].has_base && D.opd[%d].base == 4 && D.opd[%d].has_index && D.opd[%d].index == M.base.num && D.opd[%d].scale == 1, '
+                           '"NASM swap: the stack pointer becomes the base, the written base the index");' % ((_memidx(o2),) * 5))
+            out.append(sk)
+        for kind, scales in (("s*i", (1, 2, 4, 8)), ("s*i+d", (1, 2, 8)), ("s*i-d", (2, 4))):
+            for sc in scales:
+                sh = MemShape(kind, sc)
+                o2 = [tuple(x) for x in opds]
+                if mn == "mov":
+                    o2 = [("mem", "vf_regsize(R1)"), ("reg", GALL)]
+                sk = mem_form("c11.nobase.%s" % mn, "mode.sib", mn, xop, vex or 0, o2, sh, None)
+                mi = _memidx(o2)
+                sk.post.append('if (vf_opt_nb == 0) CHECK(!D.opd[%d].has_base && D.opd[%d].has_index && D.opd[%d].index == M.index.num && D.opd[%d].scale == %d, '
+                               '"STRICT no-base: index and scale are encoded literally, without base");' % (mi, mi, mi, mi, sc))
+                out.append(sk)
+        if quick and mn in ("paddd",):
+            pass
+    return out
+
+
+def _memidx(opds):
+    for i, o in enumerate(opds):
+        if o[0] == "mem":
+            return i
+    return 0
+
+
+def c11_pairs(quick):
+    """non-interference: every line that is not mode-sensitive assembles to
+    identical bytes under any two option combinations"""
+    out = []
+    reps = []
+    c1 = c01_families(quick)
+    c4 = c04_families(quick)
+    c5 = [s for s in c05_families(quick) if s.family == "branch.rel"]
+    c3 = [s for s in c03_families(quick) if not s.meta.get("mov64")]
+    c2 = c02_families(quick)
+
+    def insensitive(s):
+        # memory shapes that the SIB options touch
+        for m in s.meta.get("mem", []):
+            if m["shape"] in ("b+i",) or m["shape"].startswith("s*i"):
+                return False
+        return True
+    if quick:
+        pick1 = [s for s in c1 if s.name in ("c01.add.rr", "c01.mov.rr", "c01.xchg.rr", "c01.movzx.rr", "c01.imul.rr", "c01.neg.r", "c01.push.r",
+                                             "c01.setne.r", "c01.shl.r_cl", "c01.shr.r_1", "c01.shld.rr_cl", "c01.ret", "c01.nop7", "c01.cmovne.rr")]
+        pick4 = [s for s in c4 if s.name in ("c04.paddd.xx", "c04.paddd.mm", "c04.movq.x_r64", "c04.vpaddd.yyy", "c04.vmovdqu.xx", "c04.vperm2i128.yyyi",
+                                             "c04.mulx.rrr", "c04.rorx.rri", "c04.adcx.rr", "c04.psrldq.xi")]
+        pick5 = [s for s in c5 if s.name.startswith(("c05.jmp.", "c05.jne.nokw", "c05.call.", "c05.jrcxz.nokw"))]
+        pick3 = [s for s in c3 if s.name.startswith(("c03.add.r.", "c03.and.m_", "c03.test.r.", "c03.mov.r.", "c03.mov.m_dword", "c03.shl.r.", "c03.imul.rri", "c03.push.i"))]
+        seen = set()
+        pick2 = []
+        for s in c2:
+            if not insensitive(s):
+                continue
+            cl = s.meta.get("class")
+            key = (cl, s.meta["mem"][0]["shape"])
+            if cl in ("c02.mov.mr", "c02.add.rm", "c02.lea.rm", "c02.paddd.xm", "c02.vpaddd.yym", "c02.bextr.rmr", "c02.push.m") and key not in seen and \
+                    s.meta["mem"][0]["shape"] in ("b", "b+d", "b+i*s", "b+i*s+d", "d"):
+                seen.add(key)
+                pick2.append(s)
+        reps = pick1 + pick4 + pick5 + pick3 + pick2
+    else:
+        reps = c1 + c4 + c5 + c3 + [s for s in c2 if insensitive(s)][::7]
+    for s in reps:
+        if not insensitive(s):
+            continue
+        s.pair = True
+        s.name = "c11.pair." + s.name
+        s.family = "mode.pair"
+        out.append(s)
+    return out
+
+
+def c11_families(quick):
+    out = []
+    for st, neg in SPELLINGS:
+        out.append(c11_mov64(st, neg))
+    out += c11_sib(quick)
+    out += c11_pairs(quick)
+    return out
+
+
+# ---------------------------------------------------------------------------
+# C10: malformed or unencodable lines are rejected (text level)
+
+def _reject(name, parts_fn, fam="reject"):
+    sk = Skel(name, fam, name.split(".")[1])
+    parts_fn(sk)
+    sk.expect_fail = True
+    return sk
+
+
+def c10_families(quick, kinds_table):
+    out = []
+
+    def opnd(sk, kind):
+        if kind == "r":
+            k = sk.reg(GALL); sk.treg(k)
+        elif kind == "v":
+            k = sk.reg(XMM, "x"); sk.treg(k)
+        elif kind == "y":
+            k = sk.reg(YMM, "y"); sk.treg(k)
+        elif kind == "m":
+            k = sk.reg(G64); sk.t("[").treg(k).t("]")
+        else:
+            k = sk.num("$ < 0x7f"); sk.tnum(k, "hex")
+
+    import itertools
+    all_tuples = [""] + ["".join(t) for n in (1, 2, 3) for t in itertools.product("rvymi", repeat=n)]
+    mns = sorted(kinds_table)
+    if quick:
+        mns = ["add", "mov", "lea", "imul", "push", "jmp", "shl", "setne", "cmovne", "clflush", "movzx", "xchg", "ret", "nop", "nop5",
+               "paddd", "movq", "movd", "psrldq", "pmulld", "vpaddd", "vmovdqu", "vperm2i128", "vaddpd", "bextr", "mulx", "rorx", "adcx",
+               "shld", "test", "neg", "movntq", "cvtdq2pd", "jrcxz", "xabort"]
+    for mn in mns:
+        valid = set(kinds_table[mn])
+        invalid = [t for t in all_tuples if t not in valid]
+        # operand after an immediate is its own sub-claim; here kinds only
+        inv = [t for t in invalid if "i" not in t[:-1]]
+        # quick: a spread of three invalid tuples per mnemonic, thorough: all up to 2 operands + a spread of 3-operand ones
+        if quick:
+            pick = inv[:: max(1, len(inv) // 3)][:3]
+        else:
+            pick = [t for t in inv if len(t) <= 2] + inv[len([t for t in inv if len(t) <= 2])::9]
+        for t in pick:
+            def build(sk, mn=mn, t=t):
+                sk.t(mn)
+                for i, kd in enumerate(t):
+                    sk.t(" " if i == 0 else ", ")
+                    opnd(sk, kd)
+            out.append(_reject("c10.%s.kinds_%s" % (mn, t or "none"), build, "reject.kinds"))
+    # operand after an immediate
+    for mn, tail in (("add", ", {r}"), ("mov", ", {i}"), ("imul", ", {r}"), ("push", ", {r}"), ("rorx", ", {r}")):
+        def build(sk, mn=mn, tail=tail):
+            sk.t(mn + " ")
+            if mn not in ("push",):
+                opnd(sk, "r"); sk.t(", ")
+            if mn in ("imul", "rorx"):
+                opnd(sk, "r"); sk.t(", ")
+            opnd(sk, "i"); sk.t(", ")
+            opnd(sk, "r" if "{r}" in tail else "i")
+        out.append(_reject("c10.%s.after_imm" % mn, build, "reject.after_imm"))
+    # empty operands
+    for nm, text in (("lead", "add , {r}"), ("mid", "add {r},, {r}"), ("trail", "add {r},"), ("trail2", "add {r}, "), ("only", "add ,"),
+                     ("mid3", "shld {r}, , cl")):
+        def build(sk, text=text):
+            for piece in text.replace("{r}", "\0R\0").split("\0"):
+                if piece == "R":
+                    opnd(sk, "r")
+                elif piece:
+                    sk.t(piece)
+        out.append(_reject("c10.add.empty_%s" % nm, build, "reject.empty"))
+    # unknown mnemonics / register names (concrete spellings, real str_to_reg)
+    for nm, text in (("mn1", "addd rax, rcx"), ("mn2", "foo"), ("mn3", "mo rax, rcx"), ("mn4", "vpaddx ymm0, ymm1, ymm2"), ("mn5", "nop12"),
+                     ("reg1", "add rax, rcy"), ("reg2", "mov eaxx, 1"), ("reg3", "add rax, r16"), ("reg4", "paddd xmm16, xmm0"),
+                     ("reg5", "paddd xmm100, xmm0"), ("reg6", "vpaddd ymm0, ymm1, ymm16"), ("reg7", "mov rax, [rcz]"),
+                     ("reg8", "mov rax, [rax+rcz*2]"), ("reg9", "add r8q, rax"), ("reg10", "mov ah1, 1"), ("reg11", "inc r10l"),
+                     ("reg12", "movq mm8, rax")):
+        out.append(_reject("c10.name.%s" % nm, lambda sk, text=text: sk.t(text), "reject.names"))
+    # invalid memory expressions
+    for nm, text in (("unclosed", "mov {r}, [{a}"), ("unclosed2", "mov [{a}+0x10, {r}"), ("unclosed3", "lea {r}, [{a}+{b}*2"),
+                     ("scale3", "lea {r}, [{a}+{b}*3]"), ("scale0", "lea {r}, [{a}+{b}*0]"), ("scale5", "lea {r}, [{a}+{b}*5]"),
+                     ("scale6", "lea {r}, [{a}+6*{b}]"), ("scale7", "lea {r}, [7*{b}]"), ("scale9", "lea {r}, [{a}+{b}*9]"),
+                     ("scale16", "lea {r}, [{a}+{b}*16]"), ("scale12", "lea {r}, [12*{b}+0x10]"), ("scale10", "mov [{a}+{b}*10], {r}")):
+        def build(sk, text=text):
+            regs = {}
+            for piece in text.replace("{r}", "\0r\0").replace("{a}", "\0a\0").replace("{b}", "\0b\0").split("\0"):
+                if piece in ("r", "a", "b"):
+                    if piece not in regs:
+                        regs[piece] = sk.reg(GV if piece == "r" else G64)
+                    sk.treg(regs[piece])
+                elif piece:
+                    sk.t(piece)
+        out.append(_reject("c10.mem.%s" % nm, build, "reject.mem"))
+    # the stack pointer as scaled index, or as base and index
+    for nm, text, cond in (("sp_scaled", "lea {r}, [{a}+{b}*2]", "R2.num == 4"), ("sp_scaled1", "lea {r}, [{a}+{b}*1]", "R2.num == 4"),
+                           ("sp_scaled_first", "lea {r}, [{a}+4*{b}]", "R2.num == 4"), ("sp_nobase", "lea {r}, [8*{b}]", "R1.num == 4"),
+                           ("sp_both", "lea {r}, [{a}+{b}]", "R1.num == 4 && R2.num == 4"),
+                           ("sp_scaled_mov", "mov [{a}+{b}*8+0x10], {r}", "R1.num == 4")):
+        def build(sk, text=text, cond=cond):
+            regs = {}
+            for piece in text.replace("{r}", "\0r\0").replace("{a}", "\0a\0").replace("{b}", "\0b\0").split("\0"):
+                if piece in ("r", "a", "b"):
+                    if piece not in regs:
+                        regs[piece] = sk.reg(GV if piece == "r" else "(CM(RC_GPR64) | CM(RC_GPR32))")
+                    sk.treg(regs[piece])
+                elif piece:
+                    sk.t(piece)
+            if "a" in regs and "b" in regs:
+                sk.decl.append("ASSUME(R%d.rc == R%d.rc);" % (regs["a"], regs["b"]))
+            sk.decl.append("ASSUME(%s);" % cond)
+        out.append(_reject("c10.mem.%s" % nm, build, "reject.mem"))
     return out
